@@ -17,6 +17,6 @@ hprop.install(globals(), hprop.HistoryProperty(
           "was redirected AND (a vehicle ran empty while dispatched OR a re-offered request was dispatched again); distinct = sha1(world, op log)"),
     assumptions=hprop.COMMON_ASSUMPTIONS,
     quick=(16, 100, 40), thorough=(16, 1000, 60), probes=True,
-    instr_bias={"inject": True, "meddle": True, "kinds": [1, 1, 1, 1, 1, 1, 0, 0, 2, 5, 6, 7, 8, 3, 4], "vclasses": [0, 1, 1, 9, 9, 9, 8, 2], "tclasses": [0, 0, 2, 7, 7, 5, 6]},
+    instr_bias={"inject": True, "meddle": True, "raw": True, "raw_kinds": [2, 2, 2, 0, 5, 3], "raw_tclasses": [0, 0, 2, 7, 7, 5], "kinds": [1, 1, 1, 1, 1, 1, 0, 0, 2, 5, 6, 7, 8, 3, 4], "vclasses": [0, 1, 1, 9, 9, 9, 8, 2], "tclasses": [0, 0, 2, 7, 7, 5, 6]},
 ))
 FLOORS = {"quick": {"flag:dispatched_vehicle_redirected": 30, "flag:ran_empty_while_dispatched": 5}, "thorough": {"flag:ran_empty_while_dispatched": 50}}
